@@ -243,6 +243,9 @@ def run(ck):
             elif gk == 'switch_guard':
                 ok, why = switch_guard_ok(crate)
                 ck.ob('R7.3', 'switch-guard|' + key, ok, s['loc'], why, fn=fn['path'])
+                if g.get('starts_per_body'):
+                    ok, why = switch_starts_per_body(crate, fn)
+                    ck.ob('R7.3', 'switch-starts-per-body|' + key, ok, s['loc'], why, fn=fn['path'])
             elif gk == 'callers_dominated_by':
                 ok, why = callers_dominated(crate, fn, g['callee'], g.get('count', 1))
                 ck.ob('R7.3', 'callers-dominated|' + key, ok, s['loc'], why, fn=fn['path'])
@@ -405,6 +408,36 @@ def loop_disc(n, ordinal, seen):
     k = seen.get(d, 0)
     seen[d] = k + 1
     return d if k == 0 else '%s#%d' % (d, k + 1)
+
+
+def switch_starts_per_body(crate, fn):
+    """case_body_start_refs gets one entry per body: everything pushed into it sits in the then-branch of
+    `if let Some((_, heads)) = bodies.split_last()` as one push plus one extend over `heads`."""
+    asserts = [n for n in walk(fn['body']) if n.get('x') == 'assert_eq' or n.get('xi') == 'assert_eq']
+    vec = None
+    for c in H.calls_in(fn['body']):
+        if c.get('m') == 'remove':
+            vec = H.root_local(c['recv'])
+    if vec is None:
+        return False, 'the vector of body start labels was not found'
+    fills = [c for c in H.calls_in(fn['body']) if c.get('m') in ('push', 'extend', 'insert') and (H.root_local(c['recv']) or {}).get('hid') == vec['hid']]
+    if sorted(c['m'] for c in fills) != ['extend', 'push']:
+        return False, 'fills of the start-label vector: %s' % [c['m'] for c in fills]
+    conds = []
+    for c in fills:
+        iff = next((a for a in H.ancestors(fn, c) if a.get('k') == 'If'), None)
+        if iff is None or iff['c'].get('k') != 'LetCond' or not any(x.get('m') == 'split_last' for x in H.calls_in(iff['c']['e'])) or not any(x is c for x in walk(iff['then'])):
+            return False, '%s(..) into the start-label vector is not under `if let Some(..) = bodies.split_last()`' % c['m']
+        conds.append(iff)
+    if conds[0] is not conds[1]:
+        return False, 'push and extend are under different conditions'
+    heads = [b for b in H.pat_bindings(conds[0]['c']['pat'])]
+    ext = next(c for c in fills if c['m'] == 'extend')
+    if not heads or (H.root_local(ext['args'][0]) or {}).get('hid') != heads[-1]['hid']:
+        return False, 'extend does not iterate the `heads` part of split_last()'
+    if any(m.get('k') == 'MCall' and m.get('m') in ('skip', 'take', 'filter', 'step_by') for m in walk(ext['args'][0])):
+        return False, 'extend iterates a narrowed `heads`'
+    return True, 'the start-label vector receives 1 + heads.len() = bodies.len() entries when there is a body and none otherwise; minus the default one => one per case'
 
 
 def switch_guard_ok(crate):
